@@ -88,6 +88,28 @@ fn main() {
             drop(others);
             check(DROPS[0].load(SeqCst) == 1, "original value not destroyed exactly once");
         }
+        "Arc::with_raw_offset_arc" => {
+            let h = Arc::new(Canary(0));
+            let others: Vec<Arc<Canary>> = (1..c).map(|_| h.clone()).collect();
+            let kept: RefCell<Option<OffsetArc<Canary>>> = RefCell::new(None);
+            let _ = catch_unwind(AssertUnwindSafe(|| {
+                h.with_raw_offset_arc(|o| {
+                    if effect == "clone_kept" {
+                        *kept.borrow_mut() = Some(o.clone());
+                    }
+                    if panics {
+                        panic!("callback panics");
+                    }
+                })
+            }));
+            let n = 1 + others.len() + kept.borrow().is_some() as usize;
+            check(Arc::count(&h) == n, "count differs from the number of surviving handles");
+            drop(others);
+            drop(kept);
+            check(Arc::count(&h) == 1, "count differs from the number of surviving handles");
+            drop(h);
+            check(DROPS[0].load(SeqCst) == 1, "value not destroyed exactly once");
+        }
         "OffsetArc::with_arc" | "ArcBorrow::with_arc" | "ThinArc::with_arc" | "ThinArc::with_arc_mut" => {
             // ThinArc-shaped payload for all four (OffsetArc/ArcBorrow use a sized payload)
             let kept_sized: RefCell<Option<Arc<Canary>>> = RefCell::new(None);
